@@ -135,9 +135,18 @@ class Contract:
         """yield (label, formula) preconditions to be established by the caller."""
         return []
 
-    def result(self, S, a):
-        """Fresh symbolic result (and assume its postcondition).  Default: unsupported."""
+    def fresh_result(self, S, a):
+        """A fresh, unconstrained value of the result's sort (for use at call sites)."""
         raise PathAbort(f"contract {self.qual} cannot be used at call sites (no result builder)")
+
+    def result(self, S, a):
+        """Modular call: havoc the result, then assume the callee's postcondition."""
+        ret = self.fresh_result(S, a)
+        for label, f in self.ensures(S, a, ret):
+            if f is False:
+                raise PathAbort(f"contract {self.qual}: clause {label} is false for the fresh result")
+            S.ctx.assume(f)
+        return ret
 
     def bind(self, interp, pos, kw, self_val=None, cls_val=None):
         fi = interp.index.get(self.qual)
